@@ -88,6 +88,10 @@ func VerifDump(text bool) string {
 	if text {
 		return sb.String()
 	}
-	h := sha256.Sum256([]byte(sb.String()))
+	return VerifHash(sb.String())
+}
+
+func VerifHash(s string) string {
+	h := sha256.Sum256([]byte(s))
 	return hex.EncodeToString(h[:12])
 }
